@@ -141,8 +141,12 @@ def unsignedArg (len : Len) (args : List Arg) : Option (Nat × List Arg) :=
   | .l, .long v :: as | .ll, .long v :: as | .j, .long v :: as | .z, .long v :: as | .t, .long v :: as => some (v.toNat, as)
   | _, _ => none
 
-/-- one conversion specification applied to the argument list -/
-def isoConv (pfmt : Nat → List Char) (d : Directive) (args : List Arg) : Option (List Char × List Arg) := do
+/-- one conversion specification applied to the argument list.
+
+`strict = true` additionally refuses the two input classes on which igris is
+known to deviate (recorded findings C06-alt-zero, C06-c-nul); it is used only to
+state the `_partial` theorem — `isoFormat` itself is `strict = false`. -/
+def isoConv (pfmt : Nat → List Char) (strict : Bool) (d : Directive) (args : List Arg) : Option (List Char × List Arg) := do
   -- "a field width, or precision, or both, may be indicated by an asterisk. In
   --  this case, an int argument supplies the field width or precision. … A
   --  negative field width argument is taken as a - flag followed by a positive
@@ -172,13 +176,18 @@ def isoConv (pfmt : Nat → List Char) (d : Directive) (args : List Arg) : Optio
   else if c = 'u' || c = 'o' || c = 'x' || c = 'X' then
     if d.hash && c = 'u' then none else do
     let (v, args) ← unsignedArg d.len args
+    -- C06-alt-zero: `#` with a zero value (x, X; o when the effective precision is 1)
+    if strict && d.hash && v = 0 && (c ≠ 'o' || prec.getD 1 = 1) then none else
     some (isoInt minus d.plus d.space d.hash d.zero width prec false false v
             (if c = 'u' then 10 else if c = 'o' then 8 else 16) (c = 'X'), args)
   else if c = 'c' then
     -- "the int argument is converted to an unsigned char, and the resulting character is written"
     if d.hash || d.zero || prec.isSome || d.len ≠ .none then none else
     match args with
-    | .int v :: as => some (pad minus width [Char.ofNat (v.toNat % 256)], as)
+    | .int v :: as =>
+      -- C06-c-nul: `%c` of a NUL character
+      if strict && v.toNat % 256 = 0 then none else
+      some (pad minus width [Char.ofNat (v.toNat % 256)], as)
     | _ => none
   else if c = 's' then
     if d.hash || d.zero || d.len ≠ .none then none else
@@ -194,23 +203,27 @@ def isoConv (pfmt : Nat → List Char) (d : Directive) (args : List Arg) : Optio
 
 /-- the format is copied unchanged except for conversion specifications
 (§7.21.6.1p3); `fuel` ≥ length of the format -/
-def isoAux (pfmt : Nat → List Char) : Nat → List Char → List Arg → Option (List Char)
+def isoAux (pfmt : Nat → List Char) (strict : Bool) : Nat → List Char → List Arg → Option (List Char)
   | _, [], _ => some []
   | 0, _ :: _, _ => none
   | fuel + 1, c :: cs, args =>
     if c = NUL then none
-    else if c ≠ '%' then (isoAux pfmt fuel cs args).map (c :: ·)
+    else if c ≠ '%' then (isoAux pfmt strict fuel cs args).map (c :: ·)
     else
       match parseDirective cs with
       | none => none
       | some (d, rest) =>
-        match isoConv pfmt d args with
+        match isoConv pfmt strict d args with
         | none => none
-        | some (out, args) => (isoAux pfmt fuel rest args).map (out ++ ·)
+        | some (out, args) => (isoAux pfmt strict fuel rest args).map (out ++ ·)
 
 /-- the characters ISO C printf produces for `format` and `args` -/
 def isoFormat (pfmt : Nat → List Char) (format : List Char) (args : List Arg) : Option (List Char) :=
-  isoAux pfmt format.length format args
+  isoAux pfmt false format.length format args
+
+/-- `isoFormat` restricted to inputs outside the recorded findings' classes -/
+def isoFormatExcl (pfmt : Nat → List Char) (format : List Char) (args : List Arg) : Option (List Char) :=
+  isoAux pfmt true format.length format args
 
 /-- igris' rendering of a pointer: `0x` and 16 hexadecimal digits -/
 def igrisPtr (p : Nat) : List Char :=
